@@ -152,6 +152,8 @@ package hash
 
 // constructors: an empty ring with at least the minimum replica count
 //@ spec ringReady(h *ConsistentHash) bool = h != nil && h.ring != nil && h.nodes != nil && h.replicas >= 100
+// what Add / AddWithWeight / AddWithReplicas require of the ring (for callers in other packages)
+//@ spec addReady(h *ConsistentHash) bool = h != nil && h.ring != nil && h.nodes != nil && h.replicas >= 100 && forall(i.(int), j.(int), implies(0 <= i && i <= j && j < len(h.keys), h.keys[i] <= h.keys[j]))
 //@ func NewCustomConsistentHash
 //@   property C15
 //@   ensures fresh(result) && result.ring != nil && result.nodes != nil && result.hashFunc != nil && result.replicas >= 100 && result.replicas >= replicas && len(result.keys) == 0
